@@ -1,15 +1,16 @@
-(* Position/Caret.v — the caret is under the character at the offset (line < 100000), the printed
-   context is a window of at most 60 characters of the line, and the refutation from line 100000 on. *)
+(* Position/Caret.v — the caret is under the character at the offset (every line number), the printed
+   context is a window of at most 60 characters of the line the offset is in. *)
 From Verif Require Import Common.Base Common.Tactics Cursor.Model Cursor.Proofs
   Position.Model Position.Spec Position.Lemmas Position.Total Position.LineCol Position.Context.
 From Coq Require Import ZifyBool.
 
 (* what "the caret (n spaces, then ^) is exactly under the character at the offset" means for the first
    printed line l1: the character of the unit at the offset, as displayed, is at index n; when the offset is
-   at the end of the line (on \n, \r, \r\n or at the end of the text) the caret is just past the line *)
+   at the end of the line (on \n, \r, \r\n, U+2028, U+2029 or at the end of the text) the caret is just past
+   the line *)
 Definition caret_under (graphic : Z -> bool) (cur : list cp) (l1 : list Z) (n : nat) : Prop :=
   match cur with
-  | c :: _ => if (snd c =? 10) || (snd c =? 13) then n = length l1
+  | c :: _ => if brkc c then n = length l1
               else nth_error l1 n = Some (disp graphic (snd c))
   | [] => n = length l1
   end.
@@ -50,48 +51,52 @@ Section Caret.
   Lemma disp_graphic r : graphic (disp graphic r) = true \/ disp graphic r = 183.
   Proof. unfold disp. destruct (graphic r) eqn:E; [left; exact E|right; reflexivity]. Qed.
 
+  Lemma len_line_prefix line : len (line_prefix line) = len (pad_left 5 (fmt_d line)) + 2.
+  Proof. unfold line_prefix. rewrite len_app. reflexivity. Qed.
+
   Lemma first_line_len line c :
     len (first_line graphic line c) =
-      len (pad_left 5 (fmt_d line)) + 2 + len (ellipsis (c_front c)) + len (c_body c) + len (ellipsis (c_rear c)).
-  Proof. unfold first_line. rewrite !len_app, len_map. change (len [58; 32]) with 2. lia. Qed.
+      len (line_prefix line) + len (ellipsis (c_front c)) + len (c_body c) + len (ellipsis (c_rear c)).
+  Proof. unfold first_line. rewrite !len_app, len_map. lia. Qed.
 
   (* index k of what follows "%5d: " and the front ellipsis *)
   Lemma first_line_nth line c k :
-    len (pad_left 5 (fmt_d line)) = 5 -> 0 <= k ->
-    nth_error (first_line graphic line c) (Z.to_nat (7 + len (ellipsis (c_front c)) + k)) =
+    0 <= k ->
+    nth_error (first_line graphic line c) (Z.to_nat (len (line_prefix line) + len (ellipsis (c_front c)) + k)) =
       nth_error (map (disp graphic) (c_body c) ++ ellipsis (c_rear c)) (Z.to_nat k).
   Proof.
-    intros H5 Hk. unfold first_line. pose proof (len_nonneg (ellipsis (c_front c))) as He.
+    intros Hk. unfold first_line. pose proof (len_nonneg (ellipsis (c_front c))) as He.
+    pose proof (len_nonneg (line_prefix line)) as Hp.
     rewrite nth_error_app_at by (rewrite <- len_length; lia).
-    rewrite nth_error_app_at by (cbn [length]; rewrite <- len_length; lia).
-    rewrite nth_error_app_at by (cbn [length]; rewrite <- !len_length; lia).
-    f_equal. cbn [length]. rewrite <- !len_length. lia.
+    rewrite nth_error_app_at by (rewrite <- !len_length; lia).
+    f_equal. rewrite <- !len_length. lia.
   Qed.
 
   (* no line feed in the first printed line *)
   Lemma first_line_no_lf line c :
     0 <= line -> Forall (fun r => r <> 10) (c_body c) -> ~ In 10 (first_line graphic line c).
   Proof.
-    intros Hl Hb. unfold first_line.
-    apply not_in_app; [unfold pad_left; apply not_in_app; [apply not_in_repeat; lia|]|].
+    intros Hl Hb. unfold first_line, line_prefix.
+    apply not_in_app; [apply not_in_app; [unfold pad_left; apply not_in_app; [apply not_in_repeat; lia|]|]|].
     { apply (Forall_not_in (fun d => 48 <= d <= 57)); [apply fmt_d_range; exact Hl|lia]. }
-    apply not_in_app; [cbn; intros [H|[H|[]]]; lia|].
+    { cbn; intros [H|[H|[]]]; lia. }
     apply not_in_app; [destruct (c_front c); cbn; [intros [H|[H|[H|[]]]]; lia|tauto]|].
     apply not_in_app; [|destruct (c_rear c); cbn; [intros [H|[H|[H|[]]]]; lia|tauto]].
     intros Hin. apply in_map_iff in Hin. destruct Hin as (r & Hr & Hin).
     rewrite Forall_forall in Hb. exact (disp_not_nl r (Hb r Hin) Hr).
   Qed.
 
-  Lemma shown_line_no_lf pre cur post : Forall (fun r => r <> 10) (shown_line pre cur post).
+  Lemma whole_line_no_lf pre cur post : Forall (fun r => r <> 10) (whole_line pre cur post).
   Proof.
-    unfold shown_line. rewrite runes_app. apply Forall_app. split.
+    unfold whole_line. rewrite runes_app. apply Forall_app. split.
     - destruct (after_last_spec brkc pre) as (_ & _ & Hn & _).
       unfold runes. apply Forall_forall. intros r Hin. apply in_map_iff in Hin. destruct Hin as (c & <- & Hc).
       rewrite forallb_forall in Hn. specialize (Hn c Hc). unfold brkc, is_break in Hn.
       intros E. rewrite E in Hn. discriminate.
-    - pose proof (line_rest_no_nl (cur ++ post)) as H. unfold runes.
+    - pose proof (line_rest_no_break (cur ++ post)) as H. unfold runes.
       apply Forall_forall. intros r Hin. apply in_map_iff in Hin. destruct Hin as (c & <- & Hc).
-      rewrite Forall_forall in H. destruct (H c Hc). assumption.
+      rewrite Forall_forall in H. specialize (H c Hc). unfold brkc, is_break in H.
+      intros E. rewrite E in H. discriminate.
   Qed.
 
   (* the decomposition of a Done result of Position on a valid text *)
@@ -99,34 +104,34 @@ Section Caret.
     Forall cp_ok cps -> located cps off pre cur post ->
     position graphic (bytes cps) off = Done (line, col, ctx) ->
     line = 1 + breaks (runes pre) /\ col = 1 + len (last_line (runes pre)) /\
-    exists c, elide (shown_line pre cur post) col = Some c /\
-              ctx = first_line graphic line c ++ [10] ++ repeat 32 (Z.to_nat (6 + c_col c)) ++ [94].
+    exists c, elide (whole_line pre cur post) col = Some c /\
+              ctx = first_line graphic line c ++ [10] ++ repeat 32 (Z.to_nat (len (line_prefix line) - 1 + c_col c)) ++ [94].
   Proof.
     intros Hok Hloc E. rewrite (position_valid graphic cps off pre cur post Hok Hloc) in E. cbv zeta in E.
-    destruct (elide (shown_line pre cur post) (1 + len (last_line (runes pre)))) as [c|] eqn:Ec; [|discriminate].
-    cbn [option_bind] in E. unfold render in E.
-    destruct (6 + c_col c <? 0); [discriminate|].
+    destruct (elide (whole_line pre cur post) (1 + len (last_line (runes pre)))) as [c|] eqn:Ec; [|discriminate].
+    cbn [option_bind] in E. unfold render in E. cbv zeta in E.
+    destruct (len (line_prefix (1 + breaks (runes pre))) - 1 + c_col c <? 0); [discriminate|].
     injection E as E1 E2 E3. subst line col. split; [reflexivity|]. split; [reflexivity|].
     exists c. split; [exact Ec|]. symmetry. exact E3.
   Qed.
 
   (* the character at the offset within the shown line *)
-  Lemma shown_line_at pre cur post :
-    let L := shown_line pre cur post in
+  Lemma whole_line_at pre cur post :
+    let L := whole_line pre cur post in
     let i := len (last_line (runes pre)) in
     0 <= i <= len L /\
     match cur with
-    | c :: _ => if (snd c =? 10) || (snd c =? 13) then i = len L
+    | c :: _ => if brkc c then i = len L
                 else nth_error L (Z.to_nat i) = Some (snd c) /\ i < len L
     | [] => post = [] -> i = len L
     end.
   Proof.
-    cbv zeta. unfold shown_line. rewrite runes_app, len_app, last_line_runes.
+    cbv zeta. unfold whole_line. rewrite runes_app, len_app, last_line_runes.
     pose proof (len_nonneg (runes (after_last brkc pre))). pose proof (len_nonneg (runes (line_rest (cur ++ post)))).
     split; [lia|].
     destruct cur as [|c cur'].
     - intros ->. cbn. lia.
-    - cbn [app line_rest]. destruct ((snd c =? 10) || (snd c =? 13)).
+    - cbn [app line_rest]. destruct (brkc c).
       + cbn. lia.
       + cbn [runes map]. rewrite len_cons. split.
         * rewrite nth_error_app_at by (rewrite len_length; lia).
@@ -136,51 +141,53 @@ Section Caret.
 
   Theorem context_caret_proof cps off pre cur post line col ctx :
     Forall cp_ok cps -> located cps off pre cur post ->
-    position graphic (bytes cps) off = Done (line, col, ctx) -> line < 100000 ->
+    position graphic (bytes cps) off = Done (line, col, ctx) ->
     exists l1 n, ctx = l1 ++ 10 :: repeat 32 n ++ [94] /\ ~ In 10 l1 /\ caret_under graphic cur l1 n.
   Proof.
-    intros Hok Hloc E Hline.
+    intros Hok Hloc E.
     destruct (position_valid_parts cps off pre cur post line col ctx Hok Hloc E) as (El & Ecol & c & Ec & Ectx).
     pose proof (breaks_nonneg (runes pre)) as Hbn.
-    set (L := shown_line pre cur post) in *.
+    set (L := whole_line pre cur post) in *.
     destruct (elide_window L col) as (c' & lo & hi & Ec' & Hbody & Hlo & Hhi & Hf & Hr & Htot & Hcc & Hwin).
     rewrite Ec in Ec'. injection Ec' as <-.
-    destruct (shown_line_at pre cur post) as (Hi & Hat). fold L in Hi, Hat.
+    destruct (whole_line_at pre cur post) as (Hi & Hat). fold L in Hi, Hat.
     set (i := len (last_line (runes pre))) in *.
     assert (Hcol : col - 1 = i) by lia.
     specialize (Hwin ltac:(lia)). destruct Hwin as (Hw1 & Hw2).
-    exists (first_line graphic line c), (Z.to_nat (6 + c_col c)).
+    exists (first_line graphic line c), (Z.to_nat (len (line_prefix line) - 1 + c_col c)).
     split; [exact Ectx|]. split.
     { apply first_line_no_lf; [lia|]. rewrite Hbody. apply Forall_forall. intros r Hin.
-      pose proof (shown_line_no_lf pre cur post) as Hn. rewrite Forall_forall in Hn. apply Hn. fold L.
+      pose proof (whole_line_no_lf pre cur post) as Hn. rewrite Forall_forall in Hn. apply Hn. fold L.
       exact (in_slice r L lo hi Hin). }
-    assert (H5 : len (pad_left 5 (fmt_d line)) = 5) by (apply pad_left_len5, fmt_d_len5; lia).
     pose proof (len_nonneg (ellipsis (c_front c))) as Hen.
-    assert (Hidx : 6 + c_col c = 7 + len (ellipsis (c_front c)) + (i - lo)) by lia.
-    assert (Heol : i = len L -> Z.to_nat (6 + c_col c) = length (first_line graphic line c)).
-    { intros Hend. rewrite <- len_length, first_line_len, H5, Hbody.
+    pose proof (len_nonneg (line_prefix line)) as Hpn.
+    assert (Hidx : len (line_prefix line) - 1 + c_col c = len (line_prefix line) + len (ellipsis (c_front c)) + (i - lo)) by lia.
+    assert (Heol : i = len L -> Z.to_nat (len (line_prefix line) - 1 + c_col c) = length (first_line graphic line c)).
+    { intros Hend. rewrite <- len_length, first_line_len, Hbody.
       assert (hi = len L) by lia. subst hi.
       rewrite Hr. replace (len L <? len L) with false by (symmetry; apply Z.ltb_ge; lia).
       change (len (ellipsis false)) with 0. rewrite len_slice by lia. f_equal. lia. }
     unfold caret_under. destruct cur as [|cc cur'].
     - destruct Hloc as (_ & Hpost & _). apply Heol. apply Hat. exact Hpost.
-    - destruct ((snd cc =? 10) || (snd cc =? 13)).
+    - destruct (brkc cc).
       + apply Heol. exact Hat.
       + destruct Hat as (Hnth & Hlt). specialize (Hw2 ltac:(lia)).
-        rewrite Hidx. rewrite first_line_nth by (try assumption; lia).
+        rewrite Hidx. rewrite first_line_nth by lia.
         rewrite nth_error_app1 by (rewrite map_length, Hbody, <- len_length, len_slice by lia; lia).
         rewrite nth_error_map, Hbody, nth_error_slice by lia. rewrite Hnth. reflexivity.
   Qed.
 
-  (* the context is a window of the shown line around the column, at most 60 characters with the ellipses,
-     each ellipsis exactly where the line was cut, every character graphic or a middle dot *)
+  (* the context is a window of the line around the column, at most 60 characters with the ellipses,
+     each ellipsis exactly where the line was cut, every character graphic or a middle dot; the caret
+     column n is the printed index of the column's character *)
   Theorem context_window_proof cps off pre cur post line col ctx :
     Forall cp_ok cps -> located cps off pre cur post ->
     position graphic (bytes cps) off = Done (line, col, ctx) ->
     exists (front rear : bool) lo hi n,
-      let L := shown_line pre cur post in
-      ctx = pad_left 5 (fmt_d line) ++ [58; 32] ++ ellipsis front ++ map (disp graphic) (slice L lo hi) ++ ellipsis rear
+      let L := whole_line pre cur post in
+      ctx = line_prefix line ++ ellipsis front ++ map (disp graphic) (slice L lo hi) ++ ellipsis rear
               ++ [10] ++ repeat 32 n ++ [94] /\
+      Z.of_nat n = len (line_prefix line) + len (ellipsis front) + (col - 1 - lo) /\
       0 <= lo <= col - 1 /\ col - 1 <= hi <= len L /\ (col - 1 < len L -> col - 1 < hi) /\
       (front = true <-> 0 < lo) /\ (rear = true <-> hi < len L) /\
       len (ellipsis front) + (hi - lo) + len (ellipsis rear) <= 60 /\
@@ -188,14 +195,17 @@ Section Caret.
   Proof.
     intros Hok Hloc E.
     destruct (position_valid_parts cps off pre cur post line col ctx Hok Hloc E) as (El & Ecol & c & Ec & Ectx).
-    set (L := shown_line pre cur post) in *.
+    set (L := whole_line pre cur post) in *.
     destruct (elide_window L col) as (c' & lo & hi & Ec' & Hbody & Hlo & Hhi & Hf & Hr & Htot & Hcc & Hwin).
     rewrite Ec in Ec'. injection Ec' as <-.
-    destruct (shown_line_at pre cur post) as (Hi & _). fold L in Hi.
+    destruct (whole_line_at pre cur post) as (Hi & _). fold L in Hi.
     specialize (Hwin ltac:(lia)). destruct Hwin as (Hw1 & Hw2).
-    exists (c_front c), (c_rear c), lo, hi, (Z.to_nat (6 + c_col c)). cbv zeta. fold L.
+    pose proof (len_nonneg (ellipsis (c_front c))) as Hen.
+    pose proof (len_nonneg (line_prefix line)) as Hpn.
+    exists (c_front c), (c_rear c), lo, hi, (Z.to_nat (len (line_prefix line) - 1 + c_col c)). cbv zeta. fold L.
     split.
     { rewrite Ectx. unfold first_line. rewrite Hbody, <- !app_assoc. reflexivity. }
+    split; [rewrite Z2Nat.id by lia; lia|].
     split; [lia|]. split; [lia|]. split; [exact Hw2|].
     split; [rewrite Hf; split; intros H; b2p; [lia|apply Z.ltb_lt; lia]|].
     split; [rewrite Hr; split; intros H; b2p; [lia|apply Z.ltb_lt; lia]|].
@@ -205,12 +215,34 @@ Section Caret.
     symmetry in Hf, Hr. b2p. lia.
   Qed.
 
+  (* "a context made of that line": a line of at most 60 characters is printed exactly and in full — the
+     code points from after the last break before the offset up to the next \n, \r, \r\n, U+2028, U+2029 or
+     the end of the text, with the caret under column col *)
+  Theorem context_whole_line_proof cps off pre cur post line col ctx :
+    Forall cp_ok cps -> located cps off pre cur post ->
+    position graphic (bytes cps) off = Done (line, col, ctx) ->
+    len (whole_line pre cur post) <= 60 ->
+    ctx = line_prefix line ++ map (disp graphic) (whole_line pre cur post)
+            ++ [10] ++ repeat 32 (Z.to_nat (len (line_prefix line) + (col - 1))) ++ [94].
+  Proof.
+    intros Hok Hloc E Hshort.
+    destruct (context_window_proof cps off pre cur post line col ctx Hok Hloc E)
+      as (front & rear & lo & hi & n & Ectx & Hn & _ & _ & _ & Hf & Hr & _ & Hfull).
+    cbv zeta in *.
+    destruct (Hfull Hshort) as (-> & ->).
+    assert (front = false) by (destruct front; [destruct Hf as [Hf _]; specialize (Hf eq_refl); lia|reflexivity]).
+    assert (rear = false) by (destruct rear; [destruct Hr as [Hr _]; specialize (Hr eq_refl); lia|reflexivity]).
+    subst front rear. rewrite Ectx. cbn [ellipsis app]. rewrite slice_full.
+    change (len (ellipsis false)) with 0 in Hn.
+    replace (Z.to_nat (len (line_prefix line) + (col - 1))) with n by lia. reflexivity.
+  Qed.
+
   (* for all byte strings: at most 60 characters between "%5d: " and the end of the first line, every shown
      character graphic or a middle dot *)
   Theorem context_length_proof data off line col ctx :
     position graphic data off = Done (line, col, ctx) ->
     exists (front rear : bool) body n,
-      ctx = pad_left 5 (fmt_d line) ++ [58; 32] ++ ellipsis front ++ body ++ ellipsis rear ++ [10] ++ repeat 32 n ++ [94] /\
+      ctx = line_prefix line ++ ellipsis front ++ body ++ ellipsis rear ++ [10] ++ repeat 32 n ++ [94] /\
       len (ellipsis front ++ body ++ ellipsis rear) <= 60 /\
       Forall (fun r => graphic r = true \/ r = 183) body.
   Proof.
@@ -221,16 +253,16 @@ Section Caret.
     injection E as E1 E2 E3. subst l1 col x.
     unfold position_context in Ex. destruct (context_line z1) as [rs|]; [|discriminate]. cbn [option_bind] in Ex.
     destruct (elide_window rs (len (go_runes lx) + 1)) as (c & lo & hi & Ec & Hbody & Hlo & Hhi & _ & _ & Htot & _ & _).
-    rewrite Ec in Ex. cbn [option_bind] in Ex. unfold render in Ex.
-    destruct (6 + c_col c <? 0); [discriminate|]. injection Ex as Ex.
-    exists (c_front c), (c_rear c), (map (disp graphic) (c_body c)), (Z.to_nat (6 + c_col c)).
+    rewrite Ec in Ex. cbn [option_bind] in Ex. unfold render in Ex. cbv zeta in Ex.
+    destruct (len (line_prefix line) - 1 + c_col c <? 0); [discriminate|]. injection Ex as Ex.
+    exists (c_front c), (c_rear c), (map (disp graphic) (c_body c)), (Z.to_nat (len (line_prefix line) - 1 + c_col c)).
     split; [rewrite <- Ex; unfold first_line; rewrite <- !app_assoc; reflexivity|]. split.
     - rewrite !len_app, len_map, Hbody, len_slice by lia. lia.
     - apply Forall_forall. intros r Hin. apply in_map_iff in Hin. destruct Hin as (r0 & <- & _). apply disp_graphic.
   Qed.
 End Caret.
 
-(* --- from line 100000 on the caret is misplaced ------------------------------------------------------------- *)
+(* --- non-vacuity at line 100000 and with U+2028 -------------------------------------------------------------- *)
 Definition nl_cp : cp := ([10], 10).
 
 Lemma repeat_snoc {A} (x : A) n : repeat x (S n) = repeat x n ++ [x].
@@ -239,9 +271,9 @@ Proof. induction n as [|n IH]; [reflexivity|]. cbn [repeat app] in *. f_equal. e
 Lemma after_last_repeat_nl n : after_last brkc (repeat nl_cp n) = [].
 Proof. destruct n; [reflexivity|]. rewrite repeat_snoc, after_last_snoc. reflexivity. Qed.
 
-Lemma breaks_repeat_nl n t : ~ (starts_lf t = true /\ False) -> breaks (repeat 10 n ++ t) = Z.of_nat n + breaks t.
+Lemma breaks_repeat_nl n t : breaks (repeat 10 n ++ t) = Z.of_nat n + breaks t.
 Proof.
-  intros _. induction n as [|n IH]; [cbn; lia|].
+  induction n as [|n IH]; [cbn; lia|].
   cbn [repeat app breaks]. rewrite IH.
   replace (is_break 10 && negb ((10 =? 13) && starts_lf (repeat 10 n ++ t))) with true by reflexivity.
   rewrite Nat2Z.inj_succ. lia.
@@ -261,7 +293,7 @@ Proof. intros H. induction n; cbn; constructor; assumption. Qed.
 
 Definition ascii_graphic (r : Z) : bool := (32 <=? r) && (r <=? 126).
 
-(* 99999 line feeds, then "ab"; the offset of 'b' *)
+(* 99999 line feeds, then "ab"; the offset of 'b' is on line 100000, whose number is 6 characters wide *)
 Definition w_pre : list cp := repeat nl_cp (Z.to_nat 99999) ++ [([97], 97)].
 Definition w_cur : list cp := [([98], 98)].
 Definition w_cps : list cp := w_pre ++ w_cur ++ [].
@@ -283,89 +315,48 @@ Proof.
   split; [lia|]. split; intros [H _]; discriminate.
 Qed.
 
+(* "100000: ab", line feed, 9 spaces, '^': the caret is under 'b' *)
 Lemma w_position :
   position ascii_graphic (bytes w_cps) 100000 =
-    Done (100000, 2, [49; 48; 48; 48; 48; 48; 58; 32; 97; 98; 10; 32; 32; 32; 32; 32; 32; 32; 32; 94]).
+    Done (100000, 2, [49; 48; 48; 48; 48; 48; 58; 32; 97; 98; 10; 32; 32; 32; 32; 32; 32; 32; 32; 32; 94]).
 Proof.
   rewrite (position_valid ascii_graphic w_cps 100000 w_pre w_cur [] w_ok w_located). cbv zeta.
   assert (Hal : after_last brkc w_pre = [([97], 97)]).
   { unfold w_pre. rewrite after_last_snoc. cbn [brkc snd]. change (is_break 97) with false.
     rewrite after_last_repeat_nl. reflexivity. }
   assert (Hbr : breaks (runes w_pre) = 99999).
-  { unfold w_pre. rewrite runes_app, runes_repeat_nl. rewrite breaks_repeat_nl by tauto.
+  { unfold w_pre. rewrite runes_app, runes_repeat_nl. rewrite breaks_repeat_nl.
     rewrite Z2Nat.id by lia. reflexivity. }
-  unfold shown_line. rewrite last_line_runes, Hal, Hbr. vm_compute. reflexivity.
+  unfold whole_line. rewrite last_line_runes, Hal, Hbr. vm_compute. reflexivity.
 Qed.
 
-Theorem context_caret_refuted_proof :
-  exists graphic cps off pre cur post line col ctx,
-    Forall cp_ok cps /\ located cps off pre cur post /\
-    position graphic (bytes cps) off = Done (line, col, ctx) /\ 100000 <= line /\
-    forall l1 n, ctx = l1 ++ 10 :: repeat 32 n ++ [94] -> ~ In 10 l1 -> ~ caret_under graphic cur l1 n.
+(* the hypotheses of context_caret are met at a line number of six digits *)
+Example context_caret_line_100000 :
+  exists l1 n,
+    Forall cp_ok w_cps /\ located w_cps 100000 w_pre w_cur [] /\
+    position ascii_graphic (bytes w_cps) 100000 = Done (100000, 2, l1 ++ 10 :: repeat 32 n ++ [94]) /\
+    caret_under ascii_graphic w_cur l1 n /\ nth_error l1 n = Some 98.
 Proof.
-  exists ascii_graphic, w_cps, 100000, w_pre, w_cur, [], 100000, 2,
-    [49; 48; 48; 48; 48; 48; 58; 32; 97; 98; 10; 32; 32; 32; 32; 32; 32; 32; 32; 94].
-  split; [exact w_ok|]. split; [exact w_located|]. split; [exact w_position|]. split; [lia|].
-  intros l1 n E Hnin Hc.
-  change [49; 48; 48; 48; 48; 48; 58; 32; 97; 98; 10; 32; 32; 32; 32; 32; 32; 32; 32; 94]
-    with ([49; 48; 48; 48; 48; 48; 58; 32; 97; 98] ++ 10 :: [32; 32; 32; 32; 32; 32; 32; 32; 94]) in E.
-  symmetry in E. apply split_at_first in E; [|exact Hnin|cbn; intros H; repeat (destruct H as [H|H]; [lia|]); exact H].
-  destruct E as [-> E2].
-  assert (n = 8%nat).
-  { assert (H : length (repeat 32 n ++ [94]) = 9%nat) by (rewrite E2; reflexivity).
-    rewrite app_length, repeat_length in H. cbn in H. lia. }
-  subst n. unfold caret_under, w_cur in Hc. cbn in Hc. discriminate.
+  exists [49; 48; 48; 48; 48; 48; 58; 32; 97; 98], 9%nat.
+  split; [exact w_ok|]. split; [exact w_located|]. split; [exact w_position|]. split; reflexivity.
 Qed.
 
-(* --- the context line and U+2028 / U+2029 ---------------------------------------------------------------- *)
-Lemma line_rest5_eq l : existsb (fun c => (snd c =? 8232) || (snd c =? 8233)) (line_rest l) = false ->
-  line_rest l = line_rest5 l.
-Proof.
-  induction l as [|c t IH]; [reflexivity|]. cbn [line_rest line_rest5]. unfold brkc, is_break.
-  destruct (snd c =? 10) eqn:E10; [reflexivity|]. destruct (snd c =? 13) eqn:E13; [reflexivity|].
-  cbn [orb existsb]. intros H. apply orb_false_iff in H. destruct H as [H1 H2]. rewrite H1. f_equal. exact (IH H2).
-Qed.
-
-Section WholeLine.
-  Variable graphic : Z -> bool.
-
-  (* when no U+2028/U+2029 follows the offset on its line (up to the next \n or \r), a line of at most 60
-     characters is printed exactly: "%5d: " and the displayed code points of the whole line *)
-  Theorem context_whole_line_proof cps off pre cur post line col ctx :
-    Forall cp_ok cps -> located cps off pre cur post ->
-    position graphic (bytes cps) off = Done (line, col, ctx) ->
-    existsb (fun c => (snd c =? 8232) || (snd c =? 8233)) (line_rest (cur ++ post)) = false ->
-    len (whole_line pre cur post) <= 60 ->
-    exists n, ctx = pad_left 5 (fmt_d line) ++ [58; 32] ++ map (disp graphic) (whole_line pre cur post)
-                      ++ [10] ++ repeat 32 n ++ [94].
-  Proof.
-    intros Hok Hloc E Hno Hshort.
-    destruct (context_window_proof graphic cps off pre cur post line col ctx Hok Hloc E)
-      as (front & rear & lo & hi & n & Ectx & _ & _ & _ & Hf & Hr & _ & Hfull).
-    cbv zeta in *. unfold whole_line in *. rewrite <- (line_rest5_eq _ Hno) in *.
-    fold (shown_line pre cur post) in *.
-    destruct (Hfull Hshort) as (-> & ->).
-    assert (front = false) by (destruct front; [destruct Hf as [Hf _]; specialize (Hf eq_refl); lia|reflexivity]).
-    assert (rear = false) by (destruct rear; [destruct Hr as [Hr _]; specialize (Hr eq_refl); lia|reflexivity]).
-    subst front rear. exists n. rewrite Ectx. cbn [ellipsis app]. rewrite slice_full. reflexivity.
-  Qed.
-End WholeLine.
-
-(* "a", U+2028, "b", offset 0: Position counts two lines, the context of line 1 shows "a·b" *)
+(* "a", U+2028, "b": at offset 0 the context of line 1 is "a" only; at offset 4 the context of line 2 is "b" *)
 Definition ls_cps : list cp := [([97], 97); ([226; 128; 168], 8232); ([98], 98)].
 
-Theorem context_whole_line_refuted_proof :
-  exists graphic cps off pre cur post line col ctx,
-    Forall cp_ok cps /\ located cps off pre cur post /\
-    position graphic (bytes cps) off = Done (line, col, ctx) /\
-    len (whole_line pre cur post) <= 60 /\
-    forall n, ctx <> pad_left 5 (fmt_d line) ++ [58; 32] ++ map (disp graphic) (whole_line pre cur post)
-                       ++ [10] ++ repeat 32 n ++ [94].
+Example context_whole_line_ls :
+  Forall cp_ok ls_cps /\
+  located ls_cps 0 [] [([97], 97)] [([226; 128; 168], 8232); ([98], 98)] /\
+  whole_line [] [([97], 97)] [([226; 128; 168], 8232); ([98], 98)] = [97] /\
+  position ascii_graphic (bytes ls_cps) 0 =
+    Done (1, 1, [32; 32; 32; 32; 49; 58; 32; 97; 10; 32; 32; 32; 32; 32; 32; 32; 94]) /\
+  position ascii_graphic (bytes ls_cps) 4 =
+    Done (2, 1, [32; 32; 32; 32; 50; 58; 32; 98; 10; 32; 32; 32; 32; 32; 32; 32; 94]) /\
+  (* the offset of the U+2028 itself: end of line 1, the caret just past "a" *)
+  position ascii_graphic (bytes ls_cps) 1 =
+    Done (1, 2, [32; 32; 32; 32; 49; 58; 32; 97; 10; 32; 32; 32; 32; 32; 32; 32; 32; 94]).
 Proof.
-  exists ascii_graphic, ls_cps, 0, [], [([97], 97)], [([226; 128; 168], 8232); ([98], 98)], 1, 1,
-    [32; 32; 32; 32; 49; 58; 32; 97; 183; 98; 10; 32; 32; 32; 32; 32; 32; 32; 94].
   split; [repeat constructor|]. split.
   { split; [reflexivity|]. cbn. split; [lia|]. split; intros [H _]; discriminate. }
-  split; [vm_compute; reflexivity|]. split; [vm_compute; discriminate|].
-  intros n E. vm_compute in E. discriminate.
+  split; [reflexivity|]. repeat split; vm_compute; reflexivity.
 Qed.
